@@ -97,12 +97,14 @@ def gen_large_case(rng, huge=None):
     return dict(paired=paired, opts=opts, io=io, recs1=recs1, recs2=recs2 if paired else None, fasta_out=False, interleaved_in=False, large=True)
 
 
-def gen_case(rng, large=False):
+def gen_case(rng, large=False, fasta_pairs=False):
+    """fasta_pairs: one interleaved FASTA input whose header comments contain '>', '@' and '+' (the reader re-cuts such
+    chunks at record starts; every shard runs one of these)."""
     if large:
         return gen_large_case(rng)
-    if rng.random() < 0.2:
+    if rng.random() < 0.2 and not fasta_pairs:
         return gen_barcode_case(rng)
-    paired = rng.random() < 0.5
+    paired = rng.random() < 0.5 or fasta_pairs
     kinds = ["a", "a", "g", "b", "a$", "g^", "linked", "aX"]
     ads1 = [G.gen_adapter(rng, i, kinds=kinds) for i in range(rng.randint(1, 3))]
     ads2 = [G.gen_adapter(rng, i, upper=True, prefix="bd", kinds=kinds) for i in range(rng.randint(1, 2))] if paired and rng.random() < 0.6 else []
@@ -151,7 +153,9 @@ def gen_case(rng, large=False):
         a["argv"] = [a["flag"], a["argv"][1].replace(a["name"] + "=", "unknown=", 1)]
         a["name"] = "unknown"
         opts = [x for a_ in ads1 + ads2 for x in a_["argv"]] + opts[2 * len(ads1 + ads2):]
-    fasta = rng.random() < 0.15
+    fasta = rng.random() < 0.15 or fasta_pairs
+    if fasta_pairs:
+        opts = [o for i, o in enumerate(opts) if o != "-q" and (i == 0 or opts[i - 1] != "-q")]
     ext = rng.choice([".fastq", ".fq", ".fastq.gz", ".fq.bz2"]) if not fasta else rng.choice([".fasta", ".fa.gz"])
     if rng.random() < 0.5:
         opts += ["-m", str(rng.randint(3, 20))]
@@ -206,12 +210,14 @@ def gen_case(rng, large=False):
     elif r < 0.1:
         n = rng.randint(1, 3)        # fewer reads than workers
     recs1, recs2 = G.gen_reads(rng, n, paired, ads1, ads2 or ads1, maxlen=40, nruns=True, polya="--poly-a" in opts,
-                               header=rng.choice(["plain", "casava", "lengthtag", "gtcomment"]), qual_profile=rng.choice(["decay", "mixed", "high"]),
+                               header="gtcomment" if fasta_pairs else rng.choice(["plain", "casava", "lengthtag", "gtcomment"]), qual_profile=rng.choice(["decay", "mixed", "high"]),
                                revcomp_some="--revcomp" in opts)
     interleaved_in = paired and rng.random() < 0.25
     # FASTA input (only with FASTA outputs and without quality-based options)
-    fasta_in = fasta and not any(o in opts for o in ("-q", "--max-ee", "--nextseq-trim")) and rng.random() < 0.7
-    if fasta_in and paired and rng.random() < 0.5:
+    if fasta_pairs:
+        opts = [o for i, o in enumerate(opts) if o != "--max-ee" and (i == 0 or opts[i - 1] != "--max-ee")]
+    fasta_in = fasta and not any(o in opts for o in ("-q", "--max-ee", "--nextseq-trim")) and (rng.random() < 0.7 or fasta_pairs)
+    if fasta_in and paired and (rng.random() < 0.5 or fasta_pairs):
         interleaved_in = True
     return dict(paired=paired, opts=opts, io=io, recs1=recs1, recs2=recs2 if paired else None, fasta_out=fasta, interleaved_in=interleaved_in,
                 fasta_in=fasta_in)
@@ -259,7 +265,7 @@ def signature(run):
 
 def one_case(ctx, k):
     rng = ctx.rng("c06", k)
-    c = gen_case(rng, large=(k % 100000) % 25 == 1)
+    c = gen_case(rng, large=(k % 100000) % 25 == 1, fasta_pairs=(k % 100000) % 25 == 2)
     if c.get("large"):
         ctx.count("large_input_cases")
     d = os.path.join(ctx.scratch, f"c{k}")
